@@ -3,7 +3,18 @@
   Property theorems only (helper lemmas live in Lemmas/).
 -/
 import TealerModel.Props.Common
+import TealerModel.Props.Tie
 namespace Tealer.C09
+
+/-- tie to today's source: the model's lattice operations and operator table are the functions translated from
+    fee_field.py's AST on this run, and its constants are the ones imported from /repo -/
+theorem C09_tie_source (a b : FeeValue) (c : Cmp) :
+    Tie.toG (feeUnion a b) = Generated.feeUnion (Tie.toG a) (Tie.toG b) ∧
+    Tie.toG (feeInter a b) = Generated.feeInter (Tie.toG a) (Tie.toG b) ∧
+    (Tie.toG (feeAssertedMax c a).1, Tie.toG (feeAssertedMax c a).2) = Generated.feeAssertedMax c (Tie.toG a) ∧
+    Generated.MAX_TRANSACTION_COST = MAX_TRANSACTION_COST ∧ Generated.MAX_UINT64 = MAX_UINT64 :=
+  ⟨Tie.fee_union_tie a b, Tie.fee_inter_tie a b, Tie.fee_table_tie c a, Tie.consts_tie.1, Tie.consts_tie.2.1⟩
+
 
 /-- chain lattice: union and intersection over-approximate (and are exact on) the admitted fees -/
 theorem C09_union_sound (a b : FeeValue) (fee : Nat) :
